@@ -23,6 +23,11 @@ def worker(w, myseeds):
     os.makedirs(repo); os.makedirs(out)
     subprocess.run("git -C /repo archive HEAD | tar -x -C %s" % repo, shell=True, check=True)
     subprocess.run(["cp", "-a", os.path.join(ROOT, "lean"), lean], check=True)
+    # private snapshot of the machinery too (harness/, translator/, check, known_findings.json), so that /verif can be edited while the matrix runs
+    snap = os.path.join(d, "verif")
+    os.makedirs(snap)
+    for item in ("harness", "translator", "check", "known_findings.json", "properties.jsonl"):
+        subprocess.run(["cp", "-a", os.path.join(ROOT, item), snap], check=True)
     env = dict(os.environ, ATSIM_REPO=repo, ATSIM_LEAN_DIR=lean, ATSIM_OUT_DIR=out)
     res = {}
     for s in myseeds:
@@ -32,7 +37,7 @@ def worker(w, myseeds):
             continue
         res[s] = {}
         for p in props:
-            r = subprocess.run([os.path.join(ROOT, "check"), p, "--tier", "quick"], capture_output=True, text=True, cwd=ROOT, env=env)
+            r = subprocess.run([os.path.join(snap, "check"), p, "--tier", "quick"], capture_output=True, text=True, cwd=snap, env=env)
             v = [l for l in r.stdout.splitlines() if l.startswith("VIOLATION")]
             res[s][p] = "infra" if r.returncode not in (0, 1) else ("pass" if r.returncode == 0 else ("caught-no-input" if v and v[0].endswith("no-failing-input-found") else "caught"))
         subprocess.run(["git", "apply", "-R", patch], cwd=repo, check=True)
